@@ -399,8 +399,10 @@ def observe(text, io_mode="raw"):
   import ttconv.model as model
   from ttconv.vtt import reader
   obs = {"raised": "", "none": 0, "ps": [], "regs": []}
+  from .core import AltContext, alt_for
   try:
-    doc = reader.to_model(open_text(text, io_mode))
+    with AltContext(alt_for(("vtt", len(text), text[:40]))) as ac:
+      doc = reader.to_model(open_text(text, io_mode), None, ac.progress)
   except Exception as ex:  # pylint: disable=broad-except
     obs["raised"] = type(ex).__name__
     return obs, None
